@@ -743,6 +743,19 @@ func vfDeadlineTolerance(eflag uint16) int64 {
 	return 2
 }
 
+// explicitlyReleased: the last thing the clients were told about this LockId on this key in the phase
+// is the SUCCED of an UNLOCK that left depth 0
+func (p *vfE4Phase) explicitlyReleased(db uint8, key int, lockId int) bool {
+	for i := len(p.eng.events) - 1; i >= 0; i-- {
+		ev := p.eng.events[i]
+		if ev.Db != db || ev.Key != key || ev.LockId != lockId || ev.Foreign {
+			continue
+		}
+		return ev.CmdType == protocol.COMMAND_UNLOCK && ev.Result == protocol.RESULT_SUCCED && ev.LRCount == 0
+	}
+	return false
+}
+
 // vfCompareRestart is the C07 oracle: after (snapshot of the stopped instance,
 // expectations from the client-side history) vs restored (snapshot of the
 // fresh instance).
@@ -799,7 +812,14 @@ func vfCompareRestart(p *vfE4Phase, before *vfSnapshot, exps []*vfE4Expect, rest
 				bh = bk.hold(rh.LockId)
 			}
 			if bh == nil {
-				add("restored-not-held", relockSig(rk.Db, rk.Key), "%s L%d is held after the restart (depth %d, Count %d) but was not held when the instance stopped", vfSnapKeyName(rk), vfLockIdIndex(rh.LockId), rh.Depth, rh.Count)
+				sig := relockSig(rk.Db, rk.Key)
+				if sig != "" && p.explicitlyReleased(rk.Db, vfKeyIndex(rk.Key), vfLockIdIndex(rh.LockId)) {
+					// the known finding rebuilds depth / terms of a re-locked hold from a suffix of its LOCK
+					// records; it does not bring back a hold whose complete release by an UNLOCK the client
+					// was told (the UNLOCK record removes whatever the replay has rebuilt)
+					sig = ""
+				}
+				add("restored-not-held", sig, "%s L%d is held after the restart (depth %d, Count %d) but was not held when the instance stopped", vfSnapKeyName(rk), vfLockIdIndex(rh.LockId), rh.Depth, rh.Count)
 				continue
 			}
 			stats["restored_holds"]++
